@@ -5,6 +5,7 @@
   The specifications are Python's own list operations from `Verif.Py` (`pySliceStep`, `pyIndex`, `pySlice`).
 -/
 import Verif.Lemmas.C07
+import Verif.Lemmas.C07D
 
 namespace Verif.C07
 open Verif.Py
@@ -691,5 +692,996 @@ theorem align_then_rotate_order_matters :
     congr 1 <;> norm_num
   · simp only [Tether.frameMatrixSwapped, Tether.rotMatrix, Aff.mul, Aff.apply, rotAff, tCos, tSin, tCx, tCy, hl, two_real]
     congr 1 <;> norm_num
+
+
+/-! # Deepening round D -/
+
+/-! ## `to_kymo`: what the kymograph shows (pixels, line time, exposure, start) -/
+
+/-- `ImageStack.to_kymo(half_window = w)`, one colour channel, pages of `H × W` pixels, any reachable stack: when the
+    code returns a kymograph, the tether is horizontal (`y1 = y2` = the tether row), the window `y1 - w … y1 + w` lies
+    inside the visible image, the kymograph has one position per pixel of the part `max(x1, 0) … min(x2, width - 1)` of
+    the tether row that lies inside the image, and the value at position `x` of line `t` is the sum, over the rows
+    `y1 - w … y1 + w` of the image the stack currently shows for its `t`-th frame (`roi.apply (raw p)`), of the pixel in
+    column `max(x1, 0) + x` — "for each frame, the pixel values along the tether row reduced over the requested half
+    window".  Specification side: Python slicing of the VISIBLE image and a plain sum; model side: the window
+    arithmetic of `_kymo_from_image_stack`, `Roi.crop` on the raw page, `np.sum(axis=1)` as a fold over rows, swapped axes. -/
+theorem kymo_pixels_refine_reduce (s : Stack) (pages : List Page) (raw : Int → List (List Int)) (H W : Nat)
+    (hraw : ∀ p, (raw p).length = H ∧ ∀ row ∈ raw p, row.length = W) (hr : s.roi.Within H W)
+    (x1 y1 x2 y2 w : Int) (red : Reduce) (k : Kymo)
+    (hk : s.toKymo pages raw (some (x1, y1, x2, y2)) w red = some (.ok k)) :
+    y1 = y2 ∧ 0 ≤ w ∧ 0 ≤ y1 - w ∧ y1 + w + 1 ≤ s.roi.height ∧ max x1 0 < min (x2 + 1) s.roi.width ∧
+    k.image.length = (min (x2 + 1) s.roi.width - max x1 0).toNat ∧
+    ∀ (x t : Nat) (p : Int), (x : Int) < min (x2 + 1) s.roi.width - max x1 0 → s.frames[t]? = some p →
+      (k.image[x]?.bind (·[t]?)) = some (foldCol red ((pySlice (s.roi.apply (raw p)) (y1 - w) (y1 + w + 1)).map
+          fun row => row.getD ((max x1 0).toNat + x) 0)) := by
+  obtain ⟨r, r', _, _, hy, hw, hlo, hhi, hc, himg⟩ := toKymo_inv s pages raw x1 y1 x2 y2 w red k hk
+  subst hy
+  have hW := hr
+  obtain ⟨hx0, hx01, hx1, hy0, hy01, hy1'⟩ := hr
+  have hinv := roi_crop_some_inv s.roi r' (max x1 0) (max (x2 + 1) 0) (y1 - w) (y1 + w + 1)
+    (by omega) (by omega) hlo (by omega) hc
+  obtain ⟨e1, e2, e3, e4, hlt, _⟩ := hinv
+  have hwd : r'.width = min (x2 + 1) s.roi.width - max x1 0 := by
+    unfold Roi.width at *; omega
+  have hpos : max x1 0 < min (x2 + 1) s.roi.width := by
+    unfold Roi.width at *; omega
+  refine ⟨rfl, hw, hlo, hhi, hpos, ?_, ?_⟩
+  · rw [himg, swapAxes_length, hwd]
+  · intro x t p hx hp
+    have hxn : x < r'.width.toNat := by omega
+    rw [himg, swapAxes_getElem? _ _ _ hxn]
+    simp only [Option.bind_some, List.getElem?_map, hp, Option.map_some]
+    congr 1
+    -- the window of this frame as a slice of the visible image
+    have href := roi_crop_refines (raw p) H W (hraw p).1 (hraw p).2 s.roi hW
+      (some (max x1 0)) (some (max (x2 + 1) 0)) (some (y1 - w)) (some (y1 + w + 1))
+    rw [hc] at href
+    rw [href.1]
+    obtain ⟨hvl, hvw⟩ := roi_apply_shape (raw p) H W (hraw p).1 (hraw p).2 s.roi hW
+    generalize s.roi.apply (raw p) = vis at *
+    unfold pySlice2
+    simp only [pySliceOpt_some]
+    have hb : max (x2 + 1) 0 = x2 + 1 := by unfold Roi.width at *; omega
+    rw [hb]
+    have hrow : ∀ row ∈ pySlice vis (y1 - w) (y1 + w + 1),
+        (pySlice row (max x1 0) (x2 + 1)).getD x 0 = row.getD ((max x1 0).toNat + x) 0 := by
+      intro row _
+      exact getD_pySlice row _ _ x (by omega) (by omega) (by omega)
+    by_cases hw0 : w > 0
+    · unfold kymoLine
+      rw [if_pos hw0]
+      rw [foldRows_getD red _ (min (x2 + 1) s.roi.width - max x1 0).toNat x ?_ (by omega)]
+      · rw [List.map_map]
+        congr 1
+        apply List.map_congr_left
+        intro row hrow'
+        exact hrow row hrow'
+      · intro q hq
+        rw [List.mem_map] at hq
+        obtain ⟨row, hrow', rfl⟩ := hq
+        have := hvw row (mem_of_mem_pySlice hrow')
+        rw [pySlice_nonneg' _ _ _ (by omega) (by omega)]
+        simp only [List.length_drop, List.length_take]
+        unfold Roi.width at *; omega
+    · have hw1 : w = 0 := by omega
+      subst hw1
+      have hlen : ((pySlice vis (y1 - 0) (y1 + 0 + 1)).length : Int) = 1 := by
+        rw [length_pySlice_within _ _ _ (by omega) (by omega) (by unfold Roi.height at *; omega)]; omega
+      obtain ⟨row0, h0⟩ := List.length_eq_one_iff.mp (by omega : (pySlice vis (y1 - 0) (y1 + 0 + 1)).length = 1)
+      unfold kymoLine
+      rw [if_neg (by omega), h0]
+      simp only [List.map_cons, List.map_nil, List.headD_cons, foldCol, List.foldl_nil]
+      exact hrow row0 (by rw [h0]; simp)
+
+/-- the default of `to_kymo` (`reduce = np.sum`): the sum over the rows of the half window -/
+theorem kymo_pixels_refine (s : Stack) (pages : List Page) (raw : Int → List (List Int)) (H W : Nat)
+    (hraw : ∀ p, (raw p).length = H ∧ ∀ row ∈ raw p, row.length = W) (hr : s.roi.Within H W)
+    (x1 y1 x2 y2 w : Int) (k : Kymo)
+    (hk : s.toKymo pages raw (some (x1, y1, x2, y2)) w = some (.ok k)) :
+    y1 = y2 ∧ 0 ≤ w ∧ 0 ≤ y1 - w ∧ y1 + w + 1 ≤ s.roi.height ∧ max x1 0 < min (x2 + 1) s.roi.width ∧
+    k.image.length = (min (x2 + 1) s.roi.width - max x1 0).toNat ∧
+    ∀ (x t : Nat) (p : Int), (x : Int) < min (x2 + 1) s.roi.width - max x1 0 → s.frames[t]? = some p →
+      (k.image[x]?.bind (·[t]?)) = some (((pySlice (s.roi.apply (raw p)) (y1 - w) (y1 + w + 1)).map
+          fun row => row.getD ((max x1 0).toNat + x) 0).sum) := by
+  have h := kymo_pixels_refine_reduce s pages raw H W hraw hr x1 y1 x2 y2 w .sum k hk
+  simp only [foldCol_sum] at h
+  exact h
+
+/-- `reduce = np.max` / `np.min`: the kymograph value is one of the window's pixels of that column and bounds them all
+    (`foldCol .max` / `.min` is the maximum / minimum of a non-empty list). -/
+theorem reduce_max_min_spec (l : List Int) (hne : l ≠ []) :
+    (foldCol .max l ∈ l ∧ ∀ v ∈ l, v ≤ foldCol .max l) ∧ (foldCol .min l ∈ l ∧ ∀ v ∈ l, foldCol .min l ≤ v) :=
+  ⟨foldCol_max l hne, foldCol_min l hne⟩
+example : foldCol .max [3, 9, 4] = 9 ∧ foldCol .min [3, 9, 4] = 3 ∧ foldCol .sum [3, 9, 4] = 16 := by decide
+
+
+/-- Non-vacuity: stack `[::2]` of 4 pages of 4 × 5 pixels cropped to columns 1–4, tether row 1 from x = 0 to 2, half
+    window 1: three positions, two lines; position 0 of line 0 is `7 + 12 + 17` (rows 0–2 of raw column 1 of page 0). -/
+example : (Stack.toKymo ⟨0, 4, 2, ⟨1, 5, 0, 4⟩⟩ [⟨10, 20, 14⟩, ⟨20, 30, 24⟩, ⟨30, 40, 34⟩, ⟨40, 50, 44⟩] (encPage 4 5 1 0)
+    (some (0, 1, 2, 1)) 1) = some (.ok ⟨20, 4, 10, [[21, 141], [24, 144], [27, 147]]⟩) := by decide
+example : Roi.Within ⟨1, 5, 0, 4⟩ 4 5 := by unfold Roi.Within; decide
+
+/-- `to_kymo` cuts a window exactly when the tether is horizontal, the half window is not negative, the rows
+    `y - w … y + w` exist and at least one pixel of the tether row lies inside the image; every refusal is the
+    documented `ValueError`. -/
+theorem kymo_stack_ok_iff (s : Stack) (H W : Nat) (hr : s.roi.Within H W) (x1 y1 x2 y2 w : Int) :
+    ((∃ ks, s.kymoStack x1 y1 x2 y2 w = .ok ks) ↔
+      (y1 = y2 ∧ 0 ≤ w ∧ 0 ≤ y1 - w ∧ y2 + w + 1 ≤ s.roi.height ∧ max x1 0 < min (x2 + 1) s.roi.width)) ∧
+    ∀ e, s.kymoStack x1 y1 x2 y2 w = .error e → e = .value := by
+  obtain ⟨hx0, hx01, hx1, hy0, hy01, hy1'⟩ := hr
+  unfold Stack.kymoStack kymoWindow
+  by_cases hy : y1 ≠ y2
+  · rw [if_pos hy]
+    refine ⟨⟨fun ⟨_, h⟩ => (by cases h), fun h => absurd h.1 hy⟩, fun e h => by cases h; rfl⟩
+  · rw [if_neg hy]
+    by_cases hw : w < 0
+    · rw [if_pos hw]
+      refine ⟨⟨fun ⟨_, h⟩ => (by cases h), fun h => by omega⟩, fun e h => by cases h; rfl⟩
+    · rw [if_neg hw]
+      simp only
+      by_cases hwin : y1 - w < 0 ∨ y2 + w + 1 > s.roi.height
+      · rw [if_pos hwin]
+        refine ⟨⟨fun ⟨_, h⟩ => (by cases h), fun h => by omega⟩, fun e h => by cases h; rfl⟩
+      · rw [if_neg hwin]
+        simp only [bind, Except.bind]
+        unfold Stack.cropPixels Roi.crop Roi.make
+        simp only [cropBound_some_nonneg _ _ _ (by omega : 0 ≤ max x1 0),
+          cropBound_some_nonneg _ _ _ (by omega : 0 ≤ max (x2 + 1) 0),
+          cropBound_some_nonneg _ _ _ (by omega : 0 ≤ y1 - w),
+          cropBound_some_nonneg _ _ _ (by omega : 0 ≤ y2 + w + 1)]
+        unfold Roi.width Roi.height at *
+        rw [if_neg (by omega)]
+        by_cases hbad : min (max (x2 + 1) 0) (s.roi.xMax - s.roi.xMin) + s.roi.xMin ≤
+              min (max x1 0) (s.roi.xMax - s.roi.xMin) + s.roi.xMin ∨
+            min (y2 + w + 1) (s.roi.yMax - s.roi.yMin) + s.roi.yMin ≤
+              min (y1 - w) (s.roi.yMax - s.roi.yMin) + s.roi.yMin
+        · rw [if_pos hbad]
+          refine ⟨⟨fun ⟨_, h⟩ => (by cases h), fun h => by omega⟩, fun e h => by cases h; rfl⟩
+        · rw [if_neg hbad]
+          refine ⟨⟨fun _ => by omega, fun _ => ⟨_, rfl⟩⟩, fun e h => by cases h⟩
+
+example : Stack.kymoStack ⟨0, 3, 1, ⟨4, 10, 0, 6⟩⟩ (-3) 2 4 2 1 = .ok ⟨0, 3, 1, ⟨4, 9, 1, 4⟩⟩ := by decide
+
+/-- whenever the right tether end is not left of the image the pinned code computes the same window -/
+theorem kymoWindow_eq_pinned (x1 y1 x2 y2 w h : Int) (hx : 0 ≤ x2 + 1) :
+    kymoWindow x1 y1 x2 y2 w h = kymoWindowPinned x1 y1 x2 y2 w h := by
+  unfold kymoWindow kymoWindowPinned
+  rw [Int.max_eq_left hx]
+
+theorem F20b_witness :
+    (Stack.kymoStackPinned ⟨0, 3, 1, ⟨6, 10, 0, 4⟩⟩ (-5) 2 (-3) 2 0).toOption.map Stack.roi = some ⟨6, 8, 2, 3⟩ ∧
+    Stack.kymoStack ⟨0, 3, 1, ⟨6, 10, 0, 4⟩⟩ (-5) 2 (-3) 2 0 = .error .value := by decide
+
+/-- The timing head of `to_kymo`: it goes on exactly when there are at least two frames, all consecutive frame starts
+    are `line time` apart and all frames are exposed equally long; line time, exposure and start are those of the frames. -/
+theorem kymo_times_spec (r : List (Int × Int)) (lt ex st : Int) :
+    kymoTimes r = .ok (lt, ex, st) ↔
+      2 ≤ r.length ∧ (∀ i (h : i + 1 < r.length), r[i + 1].1 - r[i].1 = lt) ∧ (∀ x ∈ r, x.2 - x.1 = ex) ∧
+        r.head?.map (·.1) = some st := by
+  match r with
+  | [] => simp [kymoTimes]
+  | [a] => simp [kymoTimes]
+  | a :: b :: rest =>
+    have hall1 := all_zip_drop (b.1 - a.1) (a :: b :: rest)
+    unfold kymoTimes
+    simp only
+    by_cases h1 : ((a :: b :: rest).zip ((a :: b :: rest).drop 1)).all (fun (x, y) => y.1 - x.1 == b.1 - a.1) = true
+    · rw [h1]
+      simp only [Bool.not_true, Bool.false_eq_true, if_false]
+      by_cases h2 : (a :: b :: rest).all (fun r => r.2 - r.1 == a.2 - a.1) = true
+      · rw [h2]
+        simp only [Bool.not_true, Bool.false_eq_true, if_false, Except.ok.injEq, Prod.mk.injEq]
+        rw [List.all_eq_true] at h2
+        have h1' := hall1.mp h1
+        constructor
+        · rintro ⟨rfl, rfl, rfl⟩
+          refine ⟨by simp, h1', ?_, rfl⟩
+          intro x hx; simpa using h2 x hx
+        · rintro ⟨_, hd, he, hs⟩
+          refine ⟨?_, ?_, ?_⟩
+          · have := hd 0 (by simp); simpa using this
+          · exact he a (by simp)
+          · simpa using hs
+      · simp only [h2, Bool.not_false, if_true]
+        constructor
+        · intro h; cases h
+        · rintro ⟨_, _, he, _⟩
+          exfalso; apply h2
+          rw [List.all_eq_true]
+          intro x hx
+          rw [he x hx, he a (by simp)]; simp
+    · simp only [h1, Bool.not_false, if_true]
+      constructor
+      · intro h; cases h
+      · rintro ⟨_, hd, _, _⟩
+        exfalso; apply h1
+        rw [hall1]
+        intro i hi
+        rw [hd i hi]
+        have := hd 0 (by simp); simpa using this.symm
+
+/-- fewer than two frames: the (undocumented) `IndexError`; never another error than these two -/
+theorem kymo_times_errors (r : List (Int × Int)) :
+    (kymoTimes r = .error .index ↔ r.length < 2) ∧ ∀ e, kymoTimes r = .error e → e = .index ∨ e = .value := by
+  match r with
+  | [] => simp [kymoTimes]
+  | [a] => simp [kymoTimes]
+  | a :: b :: rest =>
+    unfold kymoTimes
+    simp only
+    constructor
+    · constructor
+      · intro h; split at h
+        · cases h
+        · split at h <;> cases h
+      · intro h; simp at h
+    · intro e h
+      split at h
+      · cases h; right; rfl
+      · split at h
+        · cases h; right; rfl
+        · cases h
+
+example : kymoTimes [(10, 14), (30, 34), (50, 54)] = .ok (20, 4, 10) := by decide
+example : kymoTimes [(10, 14), (30, 34), (51, 55)] = .error .value := by decide
+
+
+/-! ## The headline clause on the pixel data: indexing the stack is NumPy indexing of `get_image()` -/
+
+/-- `stack[a:b:c, ra:rb, ca:cb].get_image()` (positive step or `None`, every bound possibly `None`/negative/out of range)
+    is exactly `stack.get_image()[a:b:c, ra:rb, ca:cb]` — the frames AND the pixels — for every reachable stack (any
+    step, any ROI inside the raw pages); the result is again a stack the theorem applies to (positive step, ROI inside);
+    the code raises (`ValueError` of the ROI or "Slice is empty") only if that NumPy result has no pixel. -/
+theorem getitem_image_refines {α} (s : Stack) (hst : 0 < s.st) (raw : Int → List (List α)) (H W : Nat)
+    (hraw : ∀ p, (raw p).length = H ∧ ∀ row ∈ raw p, row.length = W) (hr : s.roi.Within H W)
+    (a b c ra rb ca cb : Option Int) (hc : 0 < c.getD 1) :
+    match s.getitemTuple [.slice a b c, .slice ra rb none, .slice ca cb none] with
+    | .ok s' => s'.image raw = (pySliceStep (s.image raw) a b (c.getD 1).toNat).map (fun img => pySlice2 img ca cb ra rb) ∧
+        0 < s'.st ∧ s'.roi.Within H W
+    | .error e => (e = .value ∨ e = .empty) ∧
+        ((pySliceStep (s.image raw) a b (c.getD 1).toNat).map (fun img => pySlice2 img ca cb ra rb)).flatten.flatten = [] := by
+  rw [getitem_tuple_decomposes]
+  unfold Stack.cropPixels
+  have hroi := fun p => roi_crop_refines (raw p) H W (hraw p).1 (hraw p).2 s.roi hr ca cb ra rb
+  cases hcrop : s.roi.crop ca cb ra rb with
+  | error e =>
+    simp only [hcrop] at hroi
+    simp only [Except.map, Except.bind]
+    refine ⟨Or.inl (hroi 0).1, ?_⟩
+    unfold Stack.image
+    rw [pySliceStep_map, List.map_map]
+    rw [List.flatten_eq_nil_iff]
+    intro l hl
+    rw [List.mem_flatten] at hl
+    obtain ⟨img, himg, hl⟩ := hl
+    rw [List.mem_map] at himg
+    obtain ⟨p, _, rfl⟩ := himg
+    have := (hroi p).2
+    rw [List.flatten_eq_nil_iff] at this
+    exact this l hl
+  | ok r' =>
+    simp only [hcrop] at hroi
+    simp only [Except.map, Except.bind]
+    have hs := slice_refines { s with roi := r' } hst a b c hc
+    simp only [Stack.frameItem]
+    have hfr : Stack.frames { s with roi := r' } = s.frames := rfl
+    cases hsl : Stack.sliceFrames { s with roi := r' } a b c with
+    | error e =>
+      rw [hsl] at hs
+      simp only
+      refine ⟨Or.inr hs.1, ?_⟩
+      unfold Stack.image
+      have h2 := hs.2
+      rw [hfr] at h2
+      rw [pySliceStep_map, h2]
+      rfl
+    | ok s' =>
+      rw [hsl] at hs
+      simp only
+      obtain ⟨hf, _, hst', hroi'⟩ := hs
+      refine ⟨?_, hst', ?_⟩
+      · unfold Stack.image
+        rw [pySliceStep_map, List.map_map, hf, hfr, hroi']
+        apply List.map_congr_left
+        intro p _
+        exact (hroi p).1
+      · rw [hroi']; exact (hroi 0).2
+
+/-- Non-vacuity: the synthetic pages of the harness meet the hypothesis on `raw`, and a stepped, cropped selection succeeds. -/
+example : ∀ p, (encPage 4 5 1 0 p).length = 4 ∧ ∀ row ∈ encPage 4 5 1 0 p, row.length = 5 := by
+  intro p; simp [encPage]
+example : Stack.getitemTuple ⟨0, 6, 1, ⟨0, 5, 0, 4⟩⟩ [.slice (some 1) none (some 2), .slice (some 1) (some 3) none,
+    .slice none (some (-1)) none] = .ok ⟨1, 6, 2, ⟨0, 4, 1, 3⟩⟩ := by decide
+
+/-- `shape`: `get_image()` has `num_frames` frames of `roi.height` rows of `roi.width` pixels. -/
+theorem image_shape {α} (s : Stack) (hst : 0 < s.st) (raw : Int → List (List α)) (H W : Nat)
+    (hraw : ∀ p, (raw p).length = H ∧ ∀ row ∈ raw p, row.length = W) (hr : s.roi.Within H W) :
+    ((s.image raw).length : Int) = s.shape.1 ∧
+      ∀ img ∈ s.image raw, (img.length : Int) = s.shape.2.1 ∧ ∀ row ∈ img, (row.length : Int) = s.shape.2.2 := by
+  unfold Stack.image Stack.shape
+  refine ⟨by rw [List.length_map]; exact (num_frames_eq_length s hst).symm, ?_⟩
+  intro img himg
+  rw [List.mem_map] at himg
+  obtain ⟨p, _, rfl⟩ := himg
+  exact roi_apply_shape (raw p) H W (hraw p).1 (hraw p).2 s.roi hr
+
+theorem index_image_refines {α} (s : Stack) (hst : 0 < s.st) (raw : Int → List (List α)) (i : Int) :
+    match s.index i, pyIndex (s.image raw) i with
+    | .ok s', some img => s'.image raw = [img]
+    | .error e, none => e = .index
+    | _, _ => False := by
+  have h := index_refines s hst i
+  unfold Stack.image
+  rw [pyIndex_map]
+  cases hi : s.index i with
+  | error e =>
+    rw [hi] at h
+    cases hp : pyIndex s.frames i with
+    | none => rw [hp] at h; simpa using h
+    | some p => rw [hp] at h; exact h.elim
+  | ok s' =>
+    rw [hi] at h
+    cases hp : pyIndex s.frames i with
+    | none => rw [hp] at h; exact h.elim
+    | some p =>
+      rw [hp] at h
+      simp only [Option.map_some]
+      rw [h.1, h.2.2]; rfl
+
+example : Stack.shape ⟨1, 6, 2, ⟨0, 4, 1, 3⟩⟩ = (3, 2, 4) := by decide
+
+/-! ## Per-frame timestamps follow the frames -/
+
+/-- `ImageStack(...)` shows pages of its file(s) only — the hypothesis `Paged` of the theorems below; frame selection
+    and cropping preserve it (conclusions of `ranges_slice_refines`, `ranges_index_refines`, `crop_preserves_ranges`). -/
+theorem fresh_paged (pages : List Page) (roi : Roi) : Stack.Paged ⟨0, pages.length, 1, roi⟩ pages := by
+  intro p hp
+  have := (mem_frames_iff ⟨0, pages.length, 1, roi⟩ (by show (0 : Int) < 1; omega) p).mp hp
+  simp only at this
+  omega
+
+theorem ranges_slice_refines (s s' : Stack) (hst : 0 < s.st) (pages : List Page) (hp : s.Paged pages)
+    (a b c : Option Int) (hc : 0 < c.getD 1) (h : s.sliceFrames a b c = .ok s') (dead : Bool) :
+    ∃ r, s.ranges pages dead false = some r ∧
+      s'.ranges pages dead false = some (pySliceStep r a b (c.getD 1).toNat) ∧ s'.Paged pages := by
+  have hs := slice_refines s hst a b c hc
+  rw [h] at hs
+  have hp' : s'.Paged pages := by
+    intro p hpm
+    rw [hs.1] at hpm
+    exact hp p (mem_pySliceStep hpm)
+  refine ⟨_, ranges_eq_map s pages hp dead, ?_, hp'⟩
+  rw [ranges_eq_map s' pages hp' dead, hs.1, pySliceStep_map]
+
+theorem ranges_index_refines (s s' : Stack) (hst : 0 < s.st) (pages : List Page) (hp : s.Paged pages)
+    (i : Int) (h : s.index i = .ok s') (dead : Bool) :
+    ∃ r x, s.ranges pages dead false = some r ∧ pyIndex r i = some x ∧
+      s'.ranges pages dead false = some [x] ∧ s'.Paged pages := by
+  have hs := index_refines s hst i
+  rw [h] at hs
+  cases hpi : pyIndex s.frames i with
+  | none => rw [hpi] at hs; exact hs.elim
+  | some p =>
+    rw [hpi] at hs
+    have hmem : p ∈ s.frames := by
+      unfold pyIndex at hpi
+      split at hpi
+      · split at hpi
+        · cases hpi
+        · exact List.mem_of_getElem? hpi
+      · exact List.mem_of_getElem? hpi
+    have hp' : s'.Paged pages := by
+      intro q hq
+      rw [hs.1, List.mem_singleton] at hq
+      subst hq
+      exact hp _ hmem
+    refine ⟨_, pageRange pages dead p, ranges_eq_map s pages hp dead, ?_, ?_, hp'⟩
+    · rw [pyIndex_map, hpi]; rfl
+    · rw [ranges_eq_map s' pages hp' dead, hs.1]; rfl
+
+theorem crop_preserves_ranges (s s' : Stack) (pages : List Page) (x0 x1 y0 y1 : Option Int)
+    (h : s.cropPixels x0 x1 y0 y1 = .ok s') (dead legacy : Bool) :
+    s'.ranges pages dead legacy = s.ranges pages dead legacy ∧ s'.start pages = s.start pages ∧
+      s'.stop pages = s.stop pages ∧ s'.shape.1 = s.shape.1 ∧ (s.Paged pages → s'.Paged pages) := by
+  have hf := crop_preserves_frames s s' x0 x1 y0 y1 h
+  unfold Stack.ranges Stack.start Stack.stop Stack.shape Stack.numFrames Stack.Paged
+  rw [hf.1, hf.2.1, hf.2.2.1, hf.2.2.2]
+  exact ⟨rfl, rfl, rfl, rfl, id⟩
+
+theorem start_stop_refine (s : Stack) (pages : List Page) (hp : s.Paged pages) :
+    ∃ r, s.ranges pages false false = some r ∧ s.start pages = r.head?.map (·.1) ∧
+      s.stop pages = r.getLast?.map (·.2) := by
+  refine ⟨_, ranges_eq_map s pages hp false, ?_, ?_⟩
+  · unfold Stack.start
+    cases hfr : s.frames with
+    | nil => rfl
+    | cons p ps =>
+      obtain ⟨h0, h1⟩ := hp p (by rw [hfr]; simp)
+      simp only [List.head?_cons, Option.bind_some, List.map_cons, Option.map_some, pageRange]
+      unfold pageAt
+      rw [if_neg (by omega), List.getElem?_eq_getElem (by omega)]
+      rfl
+  · unfold Stack.stop
+    rw [List.getLast?_map]
+    cases hl : s.frames.getLast? with
+    | none => rfl
+    | some p =>
+      obtain ⟨h0, h1⟩ := hp p (List.mem_of_getLast? hl)
+      simp only [Option.bind_some, Option.map_some, pageRange]
+      unfold pageAt
+      rw [if_neg (by omega), List.getElem?_eq_getElem (by omega)]
+      rfl
+
+
+theorem ranges_sorted (s : Stack) (hst : 0 < s.st) (pages : List Page) (hp : s.Paged pages)
+    (hsorted : pages.Pairwise (fun x y => x.start ≤ y.start ∧ x.expStop ≤ y.expStop)) :
+    (s.frames.map (pageRange pages false)).Pairwise (fun x y => x.1 ≤ y.1 ∧ x.2 ≤ y.2) := by
+  rw [List.pairwise_map]
+  refine List.Pairwise.imp_of_mem ?_ (frames_strictly_increasing s hst)
+  intro p q hpm hqm hpq
+  obtain ⟨p0, p1⟩ := hp p hpm
+  obtain ⟨q0, q1⟩ := hp q hqm
+  have hlt : p.toNat < q.toNat := by omega
+  have := (List.pairwise_iff_getElem.mp hsorted) p.toNat q.toNat (by omega) (by omega) hlt
+  unfold pageRange pageAt
+  rw [if_neg (by omega), if_neg (by omega), List.getElem?_eq_getElem (by omega), List.getElem?_eq_getElem (by omega)]
+  exact this
+
+theorem slice_time_refines (s : Stack) (hst : 0 < s.st) (pages : List Page) (hp : s.Paged pages)
+    (hsorted : pages.Pairwise (fun x y => x.start ≤ y.start ∧ x.expStop ≤ y.expStop))
+    (ta tb : Int) (ha : firstTimestamp ≤ ta) (hb : firstTimestamp ≤ tb) :
+    ∃ r, s.ranges pages false false = some r ∧
+      match s.sliceTime pages (.int ta) (.int tb) none with
+      | some (.ok s') =>
+        s'.ranges pages false false = some (r.filter fun x => decide (ta ≤ x.1) && decide (x.2 < tb)) ∧
+          s'.Paged pages ∧ 0 < s'.st ∧ s'.roi = s.roi
+      | some (.error e) => e = .empty ∧ (r.filter fun x => decide (ta ≤ x.1) && decide (x.2 < tb)) = []
+      | none => False := by
+  have hr := ranges_eq_map s pages hp false
+  refine ⟨_, hr, ?_⟩
+  have hso := ranges_sorted s hst pages hp hsorted
+  generalize hrdef : s.frames.map (pageRange pages false) = r at *
+  have hwin := time_window_refines r (hso.imp fun h => h.1) (hso.imp fun h => h.2) ta tb
+  have key : ∀ A B, pySliceStep r A B 1 = (pySliceStep s.frames A B 1).map (pageRange pages false) := by
+    intro A B; rw [← hrdef, pySliceStep_map]
+  unfold Stack.sliceTime Stack.timeToIndex
+  simp only [Option.bind_eq_bind, Option.bind_some, hr, if_neg (by omega : ¬ ta < firstTimestamp),
+    if_neg (by omega : ¬ tb < firstTimestamp), if_true, Bool.false_eq_true, if_false]
+  have hs := slice_refines s hst (some ((searchsortedLeft (r.map (·.1)) ta : Nat) : Int))
+    (some ((searchsortedLeft (r.map (·.2)) tb : Nat) : Int)) none (by simp)
+  simp only [Option.getD_none, Int.toNat_one] at hs
+  cases hsl : s.sliceFrames (some ((searchsortedLeft (r.map (·.1)) ta : Nat) : Int))
+      (some ((searchsortedLeft (r.map (·.2)) tb : Nat) : Int)) none with
+  | error e =>
+    rw [hsl] at hs
+    simp only
+    refine ⟨hs.1, ?_⟩
+    rw [← hwin, ← pySliceStep_one, key, hs.2]; rfl
+  | ok s' =>
+    rw [hsl] at hs
+    simp only
+    obtain ⟨hf, _, hst', hroi'⟩ := hs
+    have hp' : s'.Paged pages := by
+      intro p hpm
+      rw [hf] at hpm
+      exact hp p (mem_pySliceStep hpm)
+    refine ⟨?_, hp', hst', hroi'⟩
+    rw [ranges_eq_map s' pages hp' false, hf, ← key, pySliceStep_one, hwin]
+
+/-- Non-vacuity of `slice_time_refines`: three pages 0.1 s apart, exposure 40 ms; `stack[t0+50ms : t0+250ms]` keeps the
+    second frame only (the third one's exposure ends after the upper bound). -/
+example : (Stack.sliceTime ⟨0, 3, 1, ⟨0, 5, 0, 4⟩⟩
+    [⟨1600000000000000000, 1600000000100000000, 1600000000040000000⟩,
+     ⟨1600000000100000000, 1600000000200000000, 1600000000140000000⟩,
+     ⟨1600000000200000000, 1600000000300000000, 1600000000240000000⟩]
+    (.int 1600000000050000000) (.int 1600000000240000000) none).map (·.toOption.map Stack.frames) = some (some [1]) := by
+  decide
+example : List.Pairwise (fun (x y : Page) => x.start ≤ y.start ∧ x.expStop ≤ y.expStop)
+    [⟨10, 20, 14⟩, ⟨20, 30, 24⟩, ⟨30, 40, 34⟩] := by decide
+
+/-- the three kinds of bound of a frame slice: `None`; an integer below 2014-01-01 in ns is a frame index; a time
+    string is an offset from the stack's start (`≥ 0`) or stop (`< 0`) -/
+theorem time_bound_cases (s : Stack) (pages : List Page) (isStart : Bool) (v ns t0 : Int) :
+    s.timeToIndex pages isStart .none = some none ∧
+    (v < firstTimestamp → s.timeToIndex pages isStart (.int v) = some (some v)) ∧
+    ((if ns ≥ 0 then s.start pages else s.stop pages) = some t0 →
+      s.timeToIndex pages isStart (.rel ns) = s.timeToIndex pages isStart (.int (t0 + ns))) := by
+  refine ⟨by unfold Stack.timeToIndex; rfl, ?_, ?_⟩
+  · intro hv
+    unfold Stack.timeToIndex
+    simp only [Option.bind_eq_bind, Option.bind_some, if_pos hv]
+  · intro h
+    unfold Stack.timeToIndex
+    by_cases hn : ns ≥ 0
+    · rw [if_pos hn] at h
+      simp only [Option.bind_eq_bind, if_pos hn, h, Option.map_some, Option.bind_some]
+    · rw [if_neg hn] at h
+      simp only [Option.bind_eq_bind, if_neg hn, h, Option.map_some, Option.bind_some]
+
+/-! ## Index tuples of every shape -/
+
+/-- cropping with all bounds `None` is the identity -/
+theorem crop_none_id (s : Stack) (H W : Nat) (hr : s.roi.Within H W) :
+    s.cropPixels none none none none = .ok s := by
+  obtain ⟨hx0, hx01, hx1, hy0, hy01, hy1⟩ := hr
+  unfold Stack.cropPixels Roi.crop Roi.make Roi.width Roi.height
+  simp only
+  rw [cropBound_none _ _ (by omega) (by omega), cropBound_none _ _ (by omega) (by omega),
+    cropBound_none _ _ (by omega) (by omega), cropBound_none _ _ (by omega) (by omega)]
+  rw [if_neg (by omega), if_neg (by omega)]
+  simp only [Except.map]
+  have e2 : s.roi.xMax - s.roi.xMin + s.roi.xMin = s.roi.xMax := by omega
+  have e4 : s.roi.yMax - s.roi.yMin + s.roi.yMin = s.roi.yMax := by omega
+  rw [e2, e4, Int.zero_add, Int.zero_add]
+
+/-- every shape of index tuple: one to three entries are crop-then-select with `None` for the missing spatial
+    entries, an integer in a spatial position is the one-pixel slice `i:i+1`, a spatial slice with a step and a
+    fourth entry are `IndexError`s. -/
+theorem getitem_tuple_cases (s : Stack) (f : Item) (rest : List Item) :
+    s.getitemTuple (f :: rest) =
+      match rest with
+      | [] => (s.cropPixels none none none none).bind (·.frameItem f)
+      | [r] => (interpretCrop r).bind fun rows => (s.cropPixels none none rows.1 rows.2).bind (·.frameItem f)
+      | [r, c] => (interpretCrop r).bind fun rows => (interpretCrop c).bind fun cols =>
+          (s.cropPixels cols.1 cols.2 rows.1 rows.2).bind (·.frameItem f)
+      | _ => .error .index := by
+  have key : ∀ (ra rb ca cb : Option Int),
+      (do let r ← s.roi.crop ca cb ra rb; let t ← s.frameItem f; pure ({ t with roi := r } : Stack)) =
+        (s.cropPixels ca cb ra rb).bind (·.frameItem f) := by
+    intro ra rb ca cb
+    unfold Stack.cropPixels
+    cases hr : s.roi.crop ca cb ra rb with
+    | error e => rfl
+    | ok r =>
+      simp only [bind, Except.bind, Except.map, pure, Except.pure]
+      rw [frameItem_roi_indep s r f]
+      cases s.frameItem f <;> rfl
+  match rest with
+  | [] => exact key none none none none
+  | [r] =>
+    unfold Stack.getitemTuple
+    simp only [List.length_cons, List.length_nil]
+    rw [if_neg (by omega)]
+    cases hi : interpretCrop r with
+    | error e => simp [hi, bind, Except.bind]
+    | ok rows =>
+      have := key rows.1 rows.2 none none
+      simp only [List.getElem?_cons_zero, List.getElem?_cons_succ, List.getElem?_nil, hi, bind, Except.bind, pure, Except.pure] at this ⊢
+      exact this
+  | [r, c] =>
+    unfold Stack.getitemTuple
+    simp only [List.length_cons, List.length_nil]
+    rw [if_neg (by omega)]
+    cases hi : interpretCrop r with
+    | error e => simp [hi, bind, Except.bind]
+    | ok rows =>
+      cases hj : interpretCrop c with
+      | error e => simp [hi, hj, bind, Except.bind]
+      | ok cols =>
+        have := key rows.1 rows.2 cols.1 cols.2
+        simp only [List.getElem?_cons_zero, List.getElem?_cons_succ, hi, hj, bind, Except.bind, pure, Except.pure] at this ⊢
+        exact this
+  | _ :: _ :: _ :: _ =>
+    unfold Stack.getitemTuple
+    simp only [List.length_cons]
+    rw [if_pos (by omega)]
+
+theorem interpret_crop_cases (i : Int) (a b : Option Int) (c : Int) :
+    interpretCrop (.int i) = .ok (some i, some (i + 1)) ∧ interpretCrop (.slice a b none) = .ok (a, b) ∧
+      interpretCrop (.slice a b (some c)) = .error .index := ⟨rfl, rfl, rfl⟩
+
+
+/-! ## Re-defining a tether on a stack that has one (at `ℝ`) -/
+
+/-- `define_tether` on an already rotated (and cropped) stack: the two chosen points of the CURRENT image are again
+    mapped onto a horizontal left-to-right line whose length is their distance (the old rotation is undone first,
+    `TiffStack.with_tether`). -/
+theorem retether_horizontal_length (t : Tether ℝ) (e : Pt ℝ × Pt ℝ) (he : t.ends = some e)
+    (h : e.1.x ≠ e.2.x ∨ e.1.y ≠ e.2.y) (p q : Pt ℝ) (hpq : p.x ≠ q.x ∨ p.y ≠ q.y) :
+    ∃ a b, (t.withTether p q).endsProcessed = some (a, b) ∧ a.y = b.y ∧ a.x < b.x ∧
+      b.x - a.x = Real.sqrt ((q.x - p.x) * (q.x - p.x) + (q.y - p.y) * (q.y - p.y)) := by
+  obtain ⟨he', hox, hoy⟩ := withTether_ends t e he p q
+  have hcs := cos_sq_add_sin_sq e h
+  generalize he'def : (unrotate e ⟨p.x + t.offX, p.y + t.offY⟩, unrotate e ⟨q.x + t.offX, q.y + t.offY⟩) = e' at he'
+  have hdx : e'.2.x - e'.1.x = tCos e * (q.x - p.x) - tSin e * (q.y - p.y) := by
+    rw [← he'def]; simp only [unrotate]; ring
+  have hdy : e'.2.y - e'.1.y = tSin e * (q.x - p.x) + tCos e * (q.y - p.y) := by
+    rw [← he'def]; simp only [unrotate]; ring
+  have hnorm : (e'.2.x - e'.1.x) * (e'.2.x - e'.1.x) + (e'.2.y - e'.1.y) * (e'.2.y - e'.1.y) =
+      (q.x - p.x) * (q.x - p.x) + (q.y - p.y) * (q.y - p.y) := by
+    rw [hdx, hdy]
+    linear_combination ((q.x - p.x) * (q.x - p.x) + (q.y - p.y) * (q.y - p.y)) * hcs
+  have hposq : 0 < (q.x - p.x) * (q.x - p.x) + (q.y - p.y) * (q.y - p.y) := by
+    rcases hpq with h1 | h1
+    · have : q.x - p.x ≠ 0 := sub_ne_zero.mpr (Ne.symm h1)
+      nlinarith [mul_self_pos.mpr this, mul_self_nonneg (q.y - p.y)]
+    · have : q.y - p.y ≠ 0 := sub_ne_zero.mpr (Ne.symm h1)
+      nlinarith [mul_self_pos.mpr this, mul_self_nonneg (q.x - p.x)]
+  have h' : e'.1.x ≠ e'.2.x ∨ e'.1.y ≠ e'.2.y := by
+    by_contra hc
+    rw [not_or, not_not, not_not] at hc
+    have : (e'.2.x - e'.1.x) * (e'.2.x - e'.1.x) + (e'.2.y - e'.1.y) * (e'.2.y - e'.1.y) = 0 := by
+      rw [hc.1, hc.2]; ring
+    rw [hnorm] at this
+    linarith
+  obtain ⟨a, b, hab, hax, hay, hbx, hby⟩ := ends_processed _ e' he' h'
+  have hL : tLen e' = Real.sqrt ((q.x - p.x) * (q.x - p.x) + (q.y - p.y) * (q.y - p.y)) := by
+    unfold tLen; rw [hnorm]; rfl
+  have hpos := tLen_pos e' h'
+  refine ⟨a, b, hab, by rw [hay, hby], by rw [hax, hbx]; linarith, ?_⟩
+  rw [hax, hbx, ← hL]; ring
+
+/-- choosing the new tether through the points where the current image shows the content of raw points `r₁`, `r₂`:
+    that content is shown exactly at the ends of the new tether -/
+theorem retether_maps_content (t : Tether ℝ) (e : Pt ℝ × Pt ℝ) (he : t.ends = some e)
+    (h : e.1.x ≠ e.2.x ∨ e.1.y ≠ e.2.y) (alignInv : Option (Aff ℝ)) (r₁ r₂ : Pt ℝ) :
+    (t.withTether (t.land alignInv r₁) (t.land alignInv r₂)).endsProcessed =
+      some ((t.withTether (t.land alignInv r₁) (t.land alignInv r₂)).land alignInv r₁,
+            (t.withTether (t.land alignInv r₁) (t.land alignInv r₂)).land alignInv r₂) := by
+  obtain ⟨he', _, _⟩ := withTether_ends t e he (t.land alignInv r₁) (t.land alignInv r₂)
+  have hback : ∀ r : Pt ℝ, unrotate e ⟨(t.land alignInv r).x + t.offX, (t.land alignInv r).y + t.offY⟩ =
+      shownAt alignInv r := by
+    intro r
+    have : (⟨(t.land alignInv r).x + t.offX, (t.land alignInv r).y + t.offY⟩ : Pt ℝ) = rotate e (shownAt alignInv r) := by
+      rw [← frameMatrix_apply t e he alignInv r]
+      cases hm : (t.frameMatrix alignInv).apply r with
+      | mk ax ay =>
+        simp only [Tether.land, hm]
+        congr 1 <;> ring
+    rw [this, unrotate_rotate e h]
+  rw [hback, hback] at he'
+  exact tether_maps_chosen_points _ _ he' alignInv r₁ r₂ rfl rfl
+
+example : ∃ a b, ((⟨1, 2, some (⟨1, 2⟩, ⟨4, 6⟩)⟩ : Tether ℝ).withTether ⟨0, 0⟩ ⟨0, 2⟩).endsProcessed = some (a, b) ∧
+    a.y = b.y ∧ a.x < b.x ∧ b.x - a.x = Real.sqrt ((0 - 0) * (0 - 0) + (2 - 0) * (2 - 0)) :=
+  retether_horizontal_length _ (⟨1, 2⟩, ⟨4, 6⟩) rfl (Or.inl (by norm_num)) ⟨0, 0⟩ ⟨0, 2⟩ (Or.inr (by norm_num))
+
+
+/-! ## The hypotheses of the theorems hold for every reachable stack -/
+
+theorem good_init (pages : List Page) (H W : Nat) (hH : 0 < H) (hW : 0 < W) :
+    Stack.Good ⟨0, pages.length, 1, ⟨0, W, 0, H⟩⟩ H W pages := by
+  refine ⟨by show (0 : Int) < 1; omega, ?_, fresh_paged pages _⟩
+  unfold Roi.Within
+  simp only
+  omega
+
+theorem good_frameItem (s s' : Stack) (H W : Nat) (pages : List Page) (hg : s.Good H W pages) (f : Item)
+    (h : s.frameItem f = .ok s') : s'.Good H W pages := by
+  obtain ⟨hst, hr, hp⟩ := hg
+  have hroi := frames_preserve_roi s s' f h
+  have hst' := (step_positive_preserved s s' hst).1 f h
+  refine ⟨hst', by rw [hroi]; exact hr, ?_⟩
+  cases f with
+  | int i =>
+    exact (ranges_index_refines s s' hst pages hp i h false).choose_spec.choose_spec.2.2.2
+  | slice a b c =>
+    simp only [Stack.frameItem] at h
+    rcases Int.lt_trichotomy (c.getD 1) 0 with hc | hc | hc
+    · rcases slice_negative_step s hst a b c hc with h' | h' <;> rw [h'] at h <;> cases h
+    · unfold Stack.sliceFrames at h
+      simp only [hc, if_true] at h
+      cases h
+    · exact (ranges_slice_refines s s' hst pages hp a b c hc h false).choose_spec.2.2
+
+theorem good_crop (s s' : Stack) (H W : Nat) (pages : List Page) (hg : s.Good H W pages) (x0 x1 y0 y1 : Option Int)
+    (h : s.cropPixels x0 x1 y0 y1 = .ok s') : s'.Good H W pages := by
+  obtain ⟨hst, hr, hp⟩ := hg
+  have hf := crop_preserves_frames s s' x0 x1 y0 y1 h
+  refine ⟨by rw [hf.2.2.2]; exact hst, ?_, (crop_preserves_ranges s s' pages x0 x1 y0 y1 h false false).2.2.2.2 hp⟩
+  have href := roi_crop_refines (List.replicate H (List.replicate W ())) H W (by simp)
+    (by intro row hrow; rw [List.eq_of_mem_replicate hrow]; simp) s.roi hr x0 x1 y0 y1
+  unfold Stack.cropPixels at h
+  cases hc : s.roi.crop x0 x1 y0 y1 with
+  | error e => rw [hc] at h; cases h
+  | ok r =>
+    rw [hc] at h href
+    injection h with h
+    subst h
+    exact href.2
+
+/-- Every operation of the model that returns a stack returns one the theorems apply to again: the hypotheses
+    `0 < st`, `roi.Within`, `Paged` of the theorems above hold for `ImageStack(...)` (`good_init`) and are preserved by
+    frame slices (index or time bounds), integer indices, `crop_by_pixels`, index tuples and the stack behind `to_kymo`
+    — so they hold for every stack reachable by any program. -/
+theorem good_preserved (s s' : Stack) (H W : Nat) (pages : List Page) (hg : s.Good H W pages) :
+    (∀ f, s.frameItem f = .ok s' → s'.Good H W pages) ∧
+    (∀ x0 x1 y0 y1, s.cropPixels x0 x1 y0 y1 = .ok s' → s'.Good H W pages) ∧
+    (∀ items, s.getitemTuple items = .ok s' → s'.Good H W pages) ∧
+    (∀ a b c, s.sliceTime pages a b c = some (.ok s') → s'.Good H W pages) ∧
+    (∀ x1 y1 x2 y2 w, s.kymoStack x1 y1 x2 y2 w = .ok s' → s'.Good H W pages) := by
+  have hcf : ∀ (t : Stack) (x0 x1 y0 y1 : Option Int) (f : Item),
+      (s.cropPixels x0 x1 y0 y1).bind (·.frameItem f) = .ok t → t.Good H W pages := by
+    intro t x0 x1 y0 y1 f h
+    cases hc : s.cropPixels x0 x1 y0 y1 with
+    | error e => rw [hc] at h; cases h
+    | ok u =>
+      rw [hc] at h
+      exact good_frameItem u t H W pages (good_crop s u H W pages hg x0 x1 y0 y1 hc) f h
+  refine ⟨fun f h => good_frameItem s s' H W pages hg f h,
+    fun x0 x1 y0 y1 h => good_crop s s' H W pages hg x0 x1 y0 y1 h, ?_, ?_, ?_⟩
+  · intro items h
+    cases items with
+    | nil => unfold Stack.getitemTuple at h; cases h
+    | cons f rest =>
+      rw [getitem_tuple_cases] at h
+      match rest, h with
+      | [], h => exact hcf s' _ _ _ _ f h
+      | [r], h =>
+        simp only at h
+        cases hi : interpretCrop r with
+        | error e => rw [hi] at h; cases h
+        | ok rows => rw [hi] at h; exact hcf s' _ _ _ _ f h
+      | [r, c], h =>
+        simp only at h
+        cases hi : interpretCrop r with
+        | error e => rw [hi] at h; cases h
+        | ok rows =>
+          rw [hi] at h
+          cases hj : interpretCrop c with
+          | error e => simp only [Except.bind] at h; rw [hj] at h; cases h
+          | ok cols => simp only [Except.bind] at h; rw [hj] at h; exact hcf s' _ _ _ _ f h
+      | _ :: _ :: _ :: _, h => cases h
+  · intro a b c h
+    unfold Stack.sliceTime at h
+    cases ha : s.timeToIndex pages true a with
+    | none => rw [ha] at h; cases h
+    | some a' =>
+      rw [ha] at h
+      cases hb : s.timeToIndex pages false b with
+      | none => rw [hb] at h; cases h
+      | some b' =>
+        rw [hb] at h
+        simp only [Option.bind_eq_bind, Option.bind_some, Option.some.injEq] at h
+        exact good_frameItem s s' H W pages hg (.slice a' b' c) h
+  · intro x1 y1 x2 y2 w h
+    unfold Stack.kymoStack at h
+    cases hw : kymoWindow x1 y1 x2 y2 w s.roi.height with
+    | error e => rw [hw] at h; cases h
+    | ok v =>
+      obtain ⟨a, b, c, d⟩ := v
+      rw [hw] at h
+      exact good_crop s s' H W pages hg _ _ _ _ h
+
+example : ∃ pages : List Page, Stack.Good ⟨0, pages.length, 1, ⟨0, (5 : Nat), 0, (4 : Nat)⟩⟩ 4 5 pages :=
+  ⟨[⟨1, 2, 2⟩, ⟨2, 3, 3⟩], good_init _ 4 5 (by omega) (by omega)⟩
+
+
+/-! ## `to_kymo`: timing of the lines; the flat tether; frames resolve to pages of the files -/
+
+/-- line time, exposure and start of the kymograph are those of the visible frames -/
+theorem kymo_times_refine (s : Stack) (pages : List Page) (raw : Int → List (List Int))
+    (x1 y1 x2 y2 w : Int) (red : Reduce) (k : Kymo)
+    (hk : s.toKymo pages raw (some (x1, y1, x2, y2)) w red = some (.ok k)) :
+    ∃ r, s.ranges pages false false = some r ∧ 2 ≤ r.length ∧
+      (∀ i (h : i + 1 < r.length), r[i + 1].1 - r[i].1 = k.lineTime) ∧ (∀ x ∈ r, x.2 - x.1 = k.exposure) ∧
+      r.head?.map (·.1) = some k.start ∧ ∀ img ∈ k.image, img.length = r.length := by
+  obtain ⟨r, r', hr, ht, _, _, _, _, _, himg⟩ := toKymo_inv s pages raw x1 y1 x2 y2 w red k hk
+  obtain ⟨h2, hd, he, hs⟩ := (kymo_times_spec r _ _ _).mp ht
+  refine ⟨r, hr, h2, hd, he, hs, ?_⟩
+  intro img himg'
+  rw [himg] at himg'
+  unfold swapAxes at himg'
+  rw [List.mem_map] at himg'
+  obtain ⟨x, _, rfl⟩ := himg'
+  simp only [List.length_map]
+  -- number of ranges = number of frames
+  unfold Stack.ranges at hr
+  simp only [Bool.false_eq_true, if_false] at hr
+  split at hr
+  · cases hr
+  · rename_i hlen
+    injection hr with hr
+    rw [← hr, List.length_map]
+    omega
+
+/-- A tether that is horizontal and left-to-right already is the identity: the two chosen points are reported as they
+    were chosen and every channel is warped with the identity (pixel values untouched) — the situation of `to_kymo`. -/
+theorem flat_tether_is_identity (ox oy : ℝ) (p q : Pt ℝ) (hy : p.y = q.y) (hx : p.x < q.x) :
+    ((Tether.new ox oy none).withTether p q).endsProcessed = some (p, q) ∧
+      ∀ r : Pt ℝ, ((Tether.new ox oy none).withTether p q).land none r = ⟨r.x - ox, r.y - oy⟩ := by
+  obtain ⟨e, hedef⟩ : ∃ e : Pt ℝ × Pt ℝ, e = (⟨p.x + ox, p.y + oy⟩, ⟨q.x + ox, q.y + oy⟩) := ⟨_, rfl⟩
+  have he : ((Tether.new ox oy none).withTether p q).ends = some e := by rw [hedef]; rfl
+  have hdx : e.2.x - e.1.x = q.x - p.x := by rw [hedef]; ring
+  have hdy : e.2.y - e.1.y = 0 := by rw [hedef]; simp only; rw [hy]; ring
+  have hL : tLen e = q.x - p.x := by
+    unfold tLen
+    rw [hdx, hdy]
+    show Real.sqrt _ = _
+    rw [mul_zero, add_zero]
+    exact Real.sqrt_mul_self (by linarith)
+  have hpos : q.x - p.x ≠ 0 := by linarith
+  have hc : tCos e = 1 := by unfold tCos; rw [hdx, hL]; exact div_self hpos
+  have hs : tSin e = 0 := by unfold tSin; rw [hdy]; exact zero_div _
+  have hrot : ∀ r : Pt ℝ, rotate e r = r := by
+    intro r
+    cases r with
+    | mk rx ry =>
+      simp only [rotate, hc, hs]
+      congr 1 <;> ring
+  have hox : ((Tether.new ox oy none).withTether p q).offX = ox := rfl
+  have hoy : ((Tether.new ox oy none).withTether p q).offY = oy := rfl
+  constructor
+  · simp only [Tether.endsProcessed, he, Option.map_some, hrot, hox, hoy]
+    rw [hedef]
+    simp only
+    obtain ⟨px, py⟩ := p
+    obtain ⟨qx, qy⟩ := q
+    simp only
+    congr 2 <;> (congr 1 <;> ring)
+  · intro r
+    have := frameMatrix_apply _ e he none r
+    simp only [Tether.land, this, shownAt, hrot, hox, hoy]
+
+/-- every visible frame of a reachable stack resolves to a page of one of the files -/
+theorem visible_frames_resolve (s : Stack) (pages : List Page) (hp : s.Paged pages) (lens : List Nat)
+    (hl : (pages.length : Int) = (lens.map Int.ofNat).sum) (p : Int) (hpm : p ∈ s.frames) :
+    ∃ (f : Nat) (q : Int), getFrame lens p = some (f, q) ∧ f < lens.length ∧ 0 ≤ q ∧ q < (lens.getD f 0 : Nat) ∧
+      ((lens.take f).map Int.ofNat).sum + q = p := by
+  obtain ⟨h0, h1⟩ := hp p hpm
+  exact get_frame_refines lens p h0 (by omega)
+
+example : ((Tether.new (1 : ℝ) 2 none).withTether ⟨1, 1⟩ ⟨3, 1⟩).endsProcessed = some (⟨1, 1⟩, ⟨3, 1⟩) :=
+  (flat_tether_is_identity 1 2 ⟨1, 1⟩ ⟨3, 1⟩ rfl (by norm_num)).1
+
+
+/-! ## `define_tether` on a pixel-calibrated stack (points in image units) -/
+
+/-- With `cal` µm per pixel: the two points chosen in µm are mapped onto a horizontal left-to-right line — as
+    `plot_tether` reports it, in µm — of unchanged length and midpoint (the division by the calibration factor before the
+    rotation and the multiplication afterwards cancel). -/
+theorem define_tether_calibrated (ox oy cal : ℝ) (hcal : 0 < cal) (p q : Pt ℝ) (h : p.x ≠ q.x ∨ p.y ≠ q.y) :
+    ∃ a b, (((Tether.new ox oy none).defineCal cal p q).endsCal cal) = some (a, b) ∧ a.y = b.y ∧ a.x < b.x ∧
+      b.x - a.x = Real.sqrt ((q.x - p.x) * (q.x - p.x) + (q.y - p.y) * (q.y - p.y)) ∧
+      (a.x + b.x) / 2 = (p.x + q.x) / 2 ∧ (a.y + b.y) / 2 = (p.y + q.y) / 2 := by
+  have hne : cal ≠ 0 := ne_of_gt hcal
+  have h' : (⟨p.x / cal, p.y / cal⟩ : Pt ℝ).x ≠ (⟨q.x / cal, q.y / cal⟩ : Pt ℝ).x ∨
+      (⟨p.x / cal, p.y / cal⟩ : Pt ℝ).y ≠ (⟨q.x / cal, q.y / cal⟩ : Pt ℝ).y := by
+    rcases h with h | h
+    · left; simp only; intro hh; exact h ((div_left_inj' hne).mp hh)
+    · right; simp only; intro hh; exact h ((div_left_inj' hne).mp hh)
+  obtain ⟨a, b, hab, hpos, hax, hay, hbx, hby⟩ := fresh_tether ox oy ⟨p.x / cal, p.y / cal⟩ ⟨q.x / cal, q.y / cal⟩ h'
+  simp only at hpos hax hay hbx hby
+  have hD : (q.x / cal - p.x / cal) * (q.x / cal - p.x / cal) + (q.y / cal - p.y / cal) * (q.y / cal - p.y / cal) =
+      ((q.x - p.x) * (q.x - p.x) + (q.y - p.y) * (q.y - p.y)) / (cal * cal) := by
+    field_simp
+  have hsq : Real.sqrt (((q.x - p.x) * (q.x - p.x) + (q.y - p.y) * (q.y - p.y)) / (cal * cal)) * cal =
+      Real.sqrt ((q.x - p.x) * (q.x - p.x) + (q.y - p.y) * (q.y - p.y)) := by
+    rw [Real.sqrt_div' _ (le_of_lt (mul_pos hcal hcal)), Real.sqrt_mul_self (le_of_lt hcal)]
+    field_simp
+  rw [hD] at hpos hax hbx
+  refine ⟨⟨a.x * cal, a.y * cal⟩, ⟨b.x * cal, b.y * cal⟩, ?_, ?_, ?_, ?_, ?_, ?_⟩
+  · simp only [Tether.endsCal, Tether.defineCal, hab, Option.map_some]
+  · simp only; rw [hay, hby]
+  · simp only; rw [hax, hbx]; nlinarith
+  · simp only; rw [hax, hbx, ← hsq]; ring
+  · simp only; rw [hax, hbx]; field_simp; ring
+  · simp only; rw [hay, hby]; field_simp; ring
+
+example : ∃ a b, (((Tether.new (0 : ℝ) 0 none).defineCal 0.1 ⟨0, 0⟩ ⟨0.3, 0.4⟩).endsCal 0.1) = some (a, b) ∧ a.y = b.y ∧
+    a.x < b.x ∧ b.x - a.x = Real.sqrt ((0.3 - 0) * (0.3 - 0) + (0.4 - 0) * (0.4 - 0)) ∧
+    (a.x + b.x) / 2 = (0 + 0.3) / 2 ∧ (a.y + b.y) / 2 = (0 + 0.4) / 2 :=
+  define_tether_calibrated 0 0 0.1 (by norm_num) ⟨0, 0⟩ ⟨0.3, 0.4⟩ (Or.inl (by norm_num))
+
+
+/-! ## Non-vacuity of the hypotheses of the round-D theorems (instances) -/
+
+example : kymoWindow (-3) 2 4 2 0 6 = kymoWindowPinned (-3) 2 4 2 0 6 :=
+  kymoWindow_eq_pinned _ _ _ _ _ _ (by decide)
+
+/-- `index_image_refines` on a stepped stack of the harness' pages: `stack[::2][-1].get_image()` is the last frame. -/
+example : (Stack.index ⟨0, 5, 2, ⟨0, 5, 0, 4⟩⟩ (-1)).toOption.map (·.image (encPage 4 5 1 0)) =
+    (pyIndex (Stack.image ⟨0, 5, 2, ⟨0, 5, 0, 4⟩⟩ (encPage 4 5 1 0)) (-1)).map ([·]) := by decide
+
+/-- `Paged` holds for the stack `ImageStack(...)` builds, hence (by `ranges_slice_refines`) for `stack[1::2]`: its ranges
+    are the slice of the ranges. -/
+example : ∃ r, Stack.ranges ⟨0, 4, 1, ⟨0, 5, 0, 4⟩⟩ [⟨10, 20, 14⟩, ⟨20, 30, 24⟩, ⟨30, 40, 34⟩, ⟨40, 50, 44⟩] false false = some r ∧
+    Stack.ranges ⟨1, 4, 2, ⟨0, 5, 0, 4⟩⟩ [⟨10, 20, 14⟩, ⟨20, 30, 24⟩, ⟨30, 40, 34⟩, ⟨40, 50, 44⟩] false false =
+      some (pySliceStep r (some 1) none 2) := by
+  obtain ⟨r, h1, h2, _⟩ := ranges_slice_refines ⟨0, 4, 1, ⟨0, 5, 0, 4⟩⟩ ⟨1, 4, 2, ⟨0, 5, 0, 4⟩⟩ (by decide)
+    [⟨10, 20, 14⟩, ⟨20, 30, 24⟩, ⟨30, 40, 34⟩, ⟨40, 50, 44⟩]
+    (fresh_paged [⟨10, 20, 14⟩, ⟨20, 30, 24⟩, ⟨30, 40, 34⟩, ⟨40, 50, 44⟩] ⟨0, 5, 0, 4⟩) (some 1) none (some 2) (by decide) (by decide) false
+  exact ⟨r, h1, h2⟩
+
+/-- `visible_frames_resolve`: 6 pages in files of 3, 2 and 1 pages; frame 4 of the fresh stack is page 1 of file 1. -/
+example : ∃ (f : Nat) (q : Int), getFrame [3, 2, 1] 4 = some (f, q) ∧ f < 3 ∧ 0 ≤ q ∧
+    q < (([3, 2, 1] : List Nat).getD f 0 : Nat) ∧ ((([3, 2, 1] : List Nat).take f).map Int.ofNat).sum + q = 4 :=
+  visible_frames_resolve ⟨0, 6, 1, ⟨0, 5, 0, 4⟩⟩
+    [⟨1, 2, 2⟩, ⟨2, 3, 3⟩, ⟨3, 4, 4⟩, ⟨4, 5, 5⟩, ⟨5, 6, 6⟩, ⟨6, 7, 7⟩]
+    (fresh_paged [⟨1, 2, 2⟩, ⟨2, 3, 3⟩, ⟨3, 4, 4⟩, ⟨4, 5, 5⟩, ⟨5, 6, 6⟩, ⟨6, 7, 7⟩] ⟨0, 5, 0, 4⟩) [3, 2, 1] (by decide) 4 (by decide)
+
+/-- `retether_maps_content` needs a non-degenerate existing tether only. -/
+example : ∃ t : Tether ℝ, ∃ e, t.ends = some e ∧ (e.1.x ≠ e.2.x ∨ e.1.y ≠ e.2.y) :=
+  ⟨⟨1, 2, some (⟨1, 2⟩, ⟨4, 6⟩)⟩, (⟨1, 2⟩, ⟨4, 6⟩), rfl, Or.inl (by norm_num)⟩
+
+
+/-! ## Legacy exports: frame ranges of a selection -/
+
+/-- For legacy Pylake exports the ranges with dead time of ANY stack (sliced, indexed, cropped) are the legacy rule
+    (`legacy_frame_ranges`) applied to the DateTime ranges of the frames it shows — which are the slice of the full
+    stack's by `ranges_slice_refines`. -/
+theorem ranges_legacy_eq (s : Stack) (pages : List Page) :
+    s.ranges pages true true = (s.ranges pages true false).bind legacyRanges ∧
+      s.ranges pages false true = s.ranges pages false false := by
+  unfold Stack.ranges
+  simp only
+  constructor
+  · split
+    · rfl
+    · simp
+  · split <;> rfl
+
+
+/-! ## Programs -/
+
+/-- Any program of indexing operations (frame slices and integers, `crop_by_pixels`, index tuples, time-like slices), of
+    any length, run on a stack the code builds ends — if no operation raises — in a stack that again satisfies the
+    hypotheses of all theorems of this file: they apply at every step of every program. -/
+theorem good_runOps (H W : Nat) (pages : List Page) : ∀ (ops : List Op) (s s' : Stack), s.Good H W pages →
+    Stack.runOps pages s ops = some (.ok s') → s'.Good H W pages
+  | [], s, s', hg, h => by
+    simp only [Stack.runOps, Option.some.injEq, Except.ok.injEq] at h
+    rw [← h]; exact hg
+  | op :: rest, s, s', hg, h => by
+    unfold Stack.runOps at h
+    cases ha : s.applyOp pages op with
+    | none => rw [ha] at h; cases h
+    | some r =>
+      rw [ha] at h
+      cases r with
+      | error e => simp only at h; cases h
+      | ok t =>
+        simp only at h
+        have ht : t.Good H W pages := by
+          obtain ⟨h1, h2, h3, h4, _⟩ := good_preserved s t H W pages hg
+          cases op with
+          | frame f => exact h1 f (by simpa [Stack.applyOp] using ha)
+          | crop x0 x1 y0 y1 => exact h2 x0 x1 y0 y1 (by simpa [Stack.applyOp] using ha)
+          | tuple items => exact h3 items (by simpa [Stack.applyOp] using ha)
+          | time a b c => exact h4 a b c (by simpa [Stack.applyOp] using ha)
+        exact good_runOps H W pages rest t s' ht h
+
+/-- Non-vacuity: `stack[1::2][:, :-1, 1:4]["0.1s":]` on six pages 0.1 s apart. -/
+example : Stack.runOps
+    [⟨1600000000000000000, 1600000000100000000, 1600000000040000000⟩, ⟨1600000000100000000, 1600000000200000000, 1600000000140000000⟩,
+     ⟨1600000000200000000, 1600000000300000000, 1600000000240000000⟩, ⟨1600000000300000000, 1600000000400000000, 1600000000340000000⟩,
+     ⟨1600000000400000000, 1600000000500000000, 1600000000440000000⟩, ⟨1600000000500000000, 1600000000600000000, 1600000000540000000⟩]
+    ⟨0, 6, 1, ⟨0, 5, 0, 4⟩⟩
+    [.frame (.slice (some 1) none (some 2)), .tuple [.slice none none none, .slice none (some (-1)) none, .slice (some 1) (some 4) none],
+     .time (.rel 100000000) .none none] = some (.ok ⟨3, 7, 2, ⟨1, 4, 0, 3⟩⟩) := by decide
+
+
+/-- Successive indexing operations compose like their array counterparts: a program `stack[i₁][i₂]…[iₙ]` of index
+    expressions `[a:b:c, ra:rb, ca:cb]` (positive steps or `None`, any bounds) that does not raise shows exactly
+    `get_image()[i₁][i₂]…[iₙ]`, for any number of steps, starting from any stack the code builds. -/
+theorem program_image_refines {α} (H W : Nat) (pages : List Page) (raw : Int → List (List α))
+    (hraw : ∀ p, (raw p).length = H ∧ ∀ row ∈ raw p, row.length = W) :
+    ∀ (prog : List Idx) (s s' : Stack), (∀ i ∈ prog, 0 < i.c.getD 1) → s.Good H W pages →
+      Stack.runOps pages s (prog.map Idx.toOp) = some (.ok s') →
+      s'.image raw = prog.foldl Idx.np (s.image raw) ∧ s'.Good H W pages
+  | [], s, s', _, hg, h => by
+    simp only [List.map_nil, Stack.runOps, Option.some.injEq, Except.ok.injEq] at h
+    rw [← h]; exact ⟨rfl, hg⟩
+  | i :: rest, s, s', hc, hg, h => by
+    simp only [List.map_cons] at h
+    unfold Stack.runOps at h
+    simp only [Stack.applyOp, Idx.toOp] at h
+    have href := getitem_image_refines s hg.1 raw H W hraw hg.2.1 i.a i.b i.c i.ra i.rb i.ca i.cb (hc i (by simp))
+    cases ht : s.getitemTuple [.slice i.a i.b i.c, .slice i.ra i.rb none, .slice i.ca i.cb none] with
+    | error e => rw [ht] at h; simp only at h; cases h
+    | ok t =>
+      rw [ht] at h href
+      simp only at h href
+      have hgt : t.Good H W pages := (good_preserved s t H W pages hg).2.2.1 _ ht
+      have ih := program_image_refines H W pages raw hraw rest t s' (fun j hj => hc j (by simp [hj])) hgt h
+      refine ⟨?_, ih.2⟩
+      rw [ih.1, List.foldl_cons, href.1]
+      rfl
+
+/-- Non-vacuity: `stack[1::2, :-1][:, :, 1:4]` of six 4 × 5 pages succeeds. -/
+example : Stack.runOps [⟨1, 2, 2⟩, ⟨2, 3, 3⟩, ⟨3, 4, 4⟩, ⟨4, 5, 5⟩, ⟨5, 6, 6⟩, ⟨6, 7, 7⟩] ⟨0, 6, 1, ⟨0, 5, 0, 4⟩⟩
+    ([⟨some 1, none, some 2, none, some (-1), none, none⟩, ⟨none, none, none, none, none, some 1, some 4⟩].map Idx.toOp) =
+      some (.ok ⟨1, 7, 2, ⟨1, 4, 0, 3⟩⟩) := by decide
 
 end Verif.C07
